@@ -473,6 +473,51 @@ func (r *rng) raw() string {
 	return string(b)
 }
 
+// denseCtrl: an invalid document — a raw control character inside a string — surrounded by enough structurals
+// that the string lies in a stage-1 call that ends because an index buffer filled up, or in an earlier
+// block than the last one.
+func (r *rng) denseCtrl() string {
+	n := 40 + r.intn(200)
+	if r.chance(1, 2) {
+		n = 650 + r.intn(2600)
+	}
+	var b strings.Builder
+	b.WriteByte('[')
+	at := r.intn(n)
+	for i := 0; i < n; i++ {
+		if i > 0 {
+			b.WriteByte(',')
+		}
+		if i == at {
+			b.WriteString("\"aaaa")
+			b.WriteByte(byte(r.intn(0x20)))
+			b.WriteString("aaaa\"")
+		} else {
+			b.WriteByte(byte('0' + r.intn(10)))
+		}
+	}
+	b.WriteByte(']')
+	if r.chance(1, 3) {
+		b.WriteString(strings.Repeat(" ", r.intn(70)))
+		b.WriteString("\n[1]")
+	}
+	return b.String()
+}
+
+// literals: a document dominated by true/false/null (tags outnumber values in the serialized form)
+func (r *rng) literals(n int) string {
+	var b strings.Builder
+	b.WriteByte('[')
+	for i := 0; i < n; i++ {
+		if i > 0 {
+			b.WriteByte(',')
+		}
+		b.WriteString([]string{"true", "false", "null"}[r.intn(3)])
+	}
+	b.WriteByte(']')
+	return b.String()
+}
+
 // ndjson builds a newline-delimited text from lines.
 func (r *rng) ndjson(cfg *genCfg, nLines int, allowBad bool) (text string, lines []string) {
 	var b strings.Builder
